@@ -326,6 +326,67 @@ theorem doReadNowait_post {s : S} (hi : Inv s) (hp : s.parked = none) (n : Optio
         have := post_data (acc := []) (by rw [hq.parked]; exact hp) hr
         simpa [hd] using this
 
+/-! ### producer operations keep `PInv` -/
+
+theorem feed_pinv {s : S} (hp : PInv s) (d : Bytes) : PInv (feed s d).1 := by
+  unfold feed wake pauseReading
+  split
+  · exact hp
+  · split
+    · exact hp
+    · simp only []
+      split <;> split <;> (try split) <;>
+        exact ⟨hp.lowpos, by intro _; show s.bufs ++ [d] ≠ []; simp⟩
+
+theorem beginChunk_pinv {s : S} (hp : PInv s) : PInv (beginChunk s).1 := by
+  unfold beginChunk
+  split
+  · exact hp
+  · split
+    · exact hp
+    · exact ⟨hp.lowpos, hp.paused_nonempty⟩
+
+theorem endChunk_pinv {s : S} (hi : Inv s) (hp : PInv s) : PInv (endChunk s).1 := by
+  unfold endChunk
+  split
+  · exact hp
+  · rename_i sp hsp
+    simp only []
+    split
+    · exact ⟨hp.lowpos, hp.paused_nonempty⟩
+    · -- more than `highChunks` pending splits need at least two distinct offsets in [cursor, total]
+      have key : sp.length + 1 > s.highChunks → s.bufs ≠ [] := by
+        intro hgt hb
+        have hsz : s.size = 0 := by rw [hi.size_eq, rest_nil hb]; rfl
+        have hct := cursor_add_size hi
+        have h1 := sorted_const_length (c := s.cursor) (hi.sorted sp hsp)
+          (by intro p hp; have := hi.range sp hsp p hp; omega)
+        have := hi.lwc
+        omega
+      unfold wake pauseReading
+      simp only []
+      split
+      · rename_i hgt
+        have hne := key hgt
+        split <;> split <;> exact ⟨hp.lowpos, fun _ => hne⟩
+      · split <;> exact ⟨hp.lowpos, hp.paused_nonempty⟩
+
+theorem feedEof_pinv {s : S} (hp : PInv s) : PInv (feedEof s).1 := by
+  unfold feedEof wake resumeReading
+  simp only []
+  split <;> split <;> exact ⟨hp.lowpos, by intro h; cases h⟩
+
+theorem setExc_pinv {s : S} (hp : PInv s) (e : Nat) : PInv (setExc s e).1 := by
+  unfold setExc wakeExc
+  simp only []
+  split <;> exact ⟨hp.lowpos, hp.paused_nonempty⟩
+
+theorem setChunk_pinv {s : S} (hp : PInv s) (n : Nat) : PInv (setChunk s n) := by
+  unfold setChunk
+  split
+  · rename_i h; exact ⟨by show 0 < n; omega, hp.paused_nonempty⟩
+  · exact hp
+
 /-! ### the step-level invariant -/
 
 structure SInv (s : S) : Prop where
@@ -339,6 +400,14 @@ structure CoreSpec (s : S) (r : S × Out) : Prop where
   accok : AccOk r.1
   delivered : r.1.delivered = s.delivered
   deliv : r.1.lost = false → s.delivered ++ outBytes r.2 ++ pendAcc r.1 = r.1.taken
+  pinv : PInv s → PInv r.1
+  blocked : r.2 = .blocked → r.1.waiter = true
+
+theorem iterOut_blocked (it : Bool) (o : Out) (h : iterOut it o = .blocked) : o = .blocked := by
+  unfold iterOut at h
+  split at h
+  · split at h <;> first | exact h | cases h
+  · exact h
 
 theorem outBytes_iterOut (it : Bool) (o : Out) : outBytes (iterOut it o) = outBytes o := by
   unfold iterOut
@@ -348,10 +417,11 @@ theorem outBytes_iterOut (it : Bool) (o : Out) : outBytes (iterOut it o) = outBy
 
 theorem post_core {s : S} (hs : SInv s) {acc : Bytes} {r : S × Out} (hacc : pendAcc s = acc)
     (h : Post s acc r) (it : Bool) : CoreSpec s (r.1, iterOut it r.2) := by
-  obtain ⟨⟨d, hr, hd⟩, -, -, ha⟩ := h
+  obtain ⟨⟨d, hr, hd⟩, -, hbl, ha⟩ := h
   have hf := reach_frame hr
   have ht := reach_taken hs.inv hr
-  refine ⟨reach_inv hs.inv hr, ha, hf.delivered, ?_⟩
+  refine ⟨reach_inv hs.inv hr, ha, hf.delivered, ?_, fun hp => pinv_reach hs.inv hp hr,
+    fun hb => hbl (iterOut_blocked it _ hb)⟩
   intro hl
   have hl0 : s.lost = false := by
     cases h : s.lost with
@@ -369,9 +439,11 @@ structure ProdFrame (s : S) (r : S × Out) : Prop where
   delivered : r.1.delivered = s.delivered
   lost : r.1.lost = s.lost
   out : outBytes r.2 = []
+  nb : r.2 ≠ .blocked
 
-theorem prod_core {s : S} (hs : SInv s) {r : S × Out} (hi : Inv r.1) (h : ProdFrame s r) : CoreSpec s r := by
-  refine ⟨hi, ?_, h.delivered, ?_⟩
+theorem prod_core {s : S} (hs : SInv s) {r : S × Out} (hi : Inv r.1) (h : ProdFrame s r)
+    (hpi : PInv s → PInv r.1) : CoreSpec s r := by
+  refine ⟨hi, ?_, h.delivered, ?_, hpi, fun hb => absurd hb h.nb⟩
   · intro p hp; rw [h.parked] at hp; exact hs.accok p hp
   · intro hl
     rw [h.lost] at hl
@@ -382,62 +454,62 @@ theorem prod_core {s : S} (hs : SInv s) {r : S × Out} (hi : Inv r.1) (h : ProdF
 theorem feed_frame (s : S) (d : Bytes) : ProdFrame s (feed s d) := by
   unfold feed wake pauseReading
   split
-  · exact ⟨rfl, rfl, rfl, rfl, rfl⟩
+  · exact ⟨rfl, rfl, rfl, rfl, rfl, by intro h; cases h⟩
   · split
-    · exact ⟨rfl, rfl, rfl, rfl, rfl⟩
+    · exact ⟨rfl, rfl, rfl, rfl, rfl, by intro h; cases h⟩
     · simp only []
-      split <;> split <;> (try split) <;> exact ⟨rfl, rfl, rfl, rfl, rfl⟩
+      split <;> split <;> (try split) <;> exact ⟨rfl, rfl, rfl, rfl, rfl, by intro h; cases h⟩
 
 theorem beginChunk_frame (s : S) : ProdFrame s (beginChunk s) := by
   unfold beginChunk
   split
-  · exact ⟨rfl, rfl, rfl, rfl, rfl⟩
-  · split <;> exact ⟨rfl, rfl, rfl, rfl, rfl⟩
+  · exact ⟨rfl, rfl, rfl, rfl, rfl, by intro h; cases h⟩
+  · split <;> exact ⟨rfl, rfl, rfl, rfl, rfl, by intro h; cases h⟩
 
 theorem endChunk_frame (s : S) : ProdFrame s (endChunk s) := by
   unfold endChunk wake pauseReading
   split
-  · exact ⟨rfl, rfl, rfl, rfl, rfl⟩
+  · exact ⟨rfl, rfl, rfl, rfl, rfl, by intro h; cases h⟩
   · simp only []
     split
-    · exact ⟨rfl, rfl, rfl, rfl, rfl⟩
-    · split <;> split <;> (try split) <;> exact ⟨rfl, rfl, rfl, rfl, rfl⟩
+    · exact ⟨rfl, rfl, rfl, rfl, rfl, by intro h; cases h⟩
+    · split <;> split <;> (try split) <;> exact ⟨rfl, rfl, rfl, rfl, rfl, by intro h; cases h⟩
 
 theorem feedEof_frame (s : S) : ProdFrame s (feedEof s) := by
   unfold feedEof wake resumeReading
   simp only []
-  split <;> split <;> exact ⟨rfl, rfl, rfl, rfl, rfl⟩
+  split <;> split <;> exact ⟨rfl, rfl, rfl, rfl, rfl, by intro h; cases h⟩
 
 theorem setExc_frame (s : S) (e : Nat) : ProdFrame s (setExc s e) := by
   unfold setExc wakeExc
   simp only []
-  split <;> exact ⟨rfl, rfl, rfl, rfl, rfl⟩
+  split <;> exact ⟨rfl, rfl, rfl, rfl, rfl, by intro h; cases h⟩
 
 theorem setChunk_frame (s : S) (n : Nat) : ProdFrame s (setChunk s n, Out.ok) := by
   unfold setChunk
-  split <;> exact ⟨rfl, rfl, rfl, rfl, rfl⟩
+  split <;> exact ⟨rfl, rfl, rfl, rfl, rfl, by intro h; cases h⟩
 
-theorem same_core {s : S} (hs : SInv s) (o : Out) (ho : outBytes o = []) : CoreSpec s (s, o) :=
-  prod_core hs hs.inv ⟨rfl, rfl, rfl, rfl, ho⟩
+theorem same_core {s : S} (hs : SInv s) (o : Out) (ho : outBytes o = []) (hb : o ≠ .blocked) : CoreSpec s (s, o) :=
+  prod_core hs hs.inv ⟨rfl, rfl, rfl, rfl, ho, hb⟩ id
 
 theorem consumer_core {s : S} (hs : SInv s) (it : Bool) (f : S → S × Out)
     (hf : s.parked = none → Post s [] (f s)) : CoreSpec s (consumer s it f) := by
   unfold consumer
   split
-  · exact same_core hs _ rfl
+  · exact same_core hs _ rfl (by intro h; cases h)
   · rename_i hp
     have hp' : s.parked = none := by simpa using hp
     exact post_core hs (by simp [pendAcc, hp']) (hf hp') it
 
 theorem core_spec {s : S} (hs : SInv s) (op : Op) : CoreSpec s (core s op) := by
   cases op with
-  | feed d => exact prod_core hs (feed_inv hs.inv d) (feed_frame s d)
-  | beginChunk => exact prod_core hs (beginChunk_inv hs.inv) (beginChunk_frame s)
-  | endChunk => exact prod_core hs (endChunk_inv hs.inv) (endChunk_frame s)
-  | feedEof => exact prod_core hs (feedEof_inv hs.inv) (feedEof_frame s)
-  | setExc e => exact prod_core hs (setExc_inv hs.inv e) (setExc_frame s e)
-  | disconnect => exact prod_core hs (disconnect_inv hs.inv) ⟨rfl, rfl, rfl, rfl, rfl⟩
-  | setChunkSize n => exact prod_core hs (setChunk_inv hs.inv n) (setChunk_frame s n)
+  | feed d => exact prod_core hs (feed_inv hs.inv d) (feed_frame s d) (fun hp => feed_pinv hp d)
+  | beginChunk => exact prod_core hs (beginChunk_inv hs.inv) (beginChunk_frame s) beginChunk_pinv
+  | endChunk => exact prod_core hs (endChunk_inv hs.inv) (endChunk_frame s) (endChunk_pinv hs.inv)
+  | feedEof => exact prod_core hs (feedEof_inv hs.inv) (feedEof_frame s) feedEof_pinv
+  | setExc e => exact prod_core hs (setExc_inv hs.inv e) (setExc_frame s e) (fun hp => setExc_pinv hp e)
+  | disconnect => exact prod_core hs (disconnect_inv hs.inv) ⟨rfl, rfl, rfl, rfl, rfl, by intro h; cases h⟩ (fun hp => ⟨hp.lowpos, hp.paused_nonempty⟩)
+  | setChunkSize n => exact prod_core hs (setChunk_inv hs.inv n) (setChunk_frame s n) (fun hp => setChunk_pinv hp n)
   | read n it =>
     refine consumer_core hs it (fun s => startRead (if it = true then setChunk s (n.getD 0) else s) n it) (fun hp => ?_)
     split
@@ -458,22 +530,22 @@ theorem core_spec {s : S} (hs : SInv s) (op : Op) : CoreSpec s (core s op) := by
         | some _ => rfl
       unfold doReadNowait
       split
-      · exact same_core hs _ rfl
+      · exact same_core hs _ rfl (by intro h; cases h)
       · rename_i hc
         have hw : s.waiter = true := by simpa [hps] using hc
         split
         · -- raise with nothing taken: only `lost` is rewritten to itself
           unfold raise
-          exact prod_core hs { hs.inv with } ⟨rfl, rfl, rfl, by simp, rfl⟩
+          exact prod_core hs { hs.inv with } ⟨rfl, rfl, rfl, by simp, rfl, by intro h; cases h⟩ (fun hp => ⟨hp.lowpos, hp.paused_nonempty⟩)
         · simp only [hw, if_true]
-          exact same_core hs _ rfl
+          exact same_core hs _ rfl (by intro h; cases h)
   | wakeup =>
     simp only [core]
     split
-    · exact same_core hs _ rfl
+    · exact same_core hs _ rfl (by intro h; cases h)
     · rename_i p hpk
       split
-      · exact same_core hs _ rfl
+      · exact same_core hs _ rfl (by intro h; cases h)
       · rename_i hw
         have hw' : s.waiter = false := by simpa using hw
         exact post_core hs (by simp [pendAcc, hpk]) (resume_post hs.inv p hw' hpk hs.accok) p.iter
@@ -490,6 +562,22 @@ theorem step_sinv {s : S} (hs : SInv s) (op : Op) : SInv (step s op).1 := by
   show (core { s with evs := [] } op).1.delivered ++ outBytes (core { s with evs := [] } op).2 ++
       pendAcc (core { s with evs := [] } op).1 = _
   rw [hc.delivered]; exact this
+
+theorem step_pinv {s : S} (hs : SInv s) (hp : PInv s) (op : Op) : PInv (step s op).1 := by
+  have hs0 : SInv { s with evs := [] } := ⟨evs_inv hs.inv [], hs.accok, hs.deliv⟩
+  have hc := core_spec hs0 op
+  have := hc.pinv ⟨hp.lowpos, hp.paused_nonempty⟩
+  exact ⟨this.lowpos, this.paused_nonempty⟩
+
+theorem exec_pinv {s : S} (hs : SInv s) (hp : PInv s) (ops : List Op) : PInv (exec s ops) := by
+  induction ops generalizing s with
+  | nil => exact hp
+  | cons op ops ih => exact ih (step_sinv hs op) (step_pinv hs hp op)
+
+theorem step_blocked {s : S} (hs : SInv s) (op : Op) (h : (step s op).2 = .blocked) :
+    (step s op).1.waiter = true := by
+  have hs0 : SInv { s with evs := [] } := ⟨evs_inv hs.inv [], hs.accok, hs.deliv⟩
+  exact (core_spec hs0 op).blocked h
 
 theorem init_sinv (limit : Nat) : SInv (init limit) :=
   ⟨init_inv limit, accok_of_none rfl, by intro _; rfl⟩
